@@ -366,27 +366,32 @@ def run_case(doc):
                             p[r.getVariable()] = v
                 dx = {s: 0.0 for s in ids}
                 dp = {}
+                dpmag = {}
                 scale = {s: 0.0 for s in ids}
                 for rx in rm.getListOfReactions():
                     kl = rx.getKineticLaw()
                     loc = {kl.getLocalParameter(i).getId(): kl.getLocalParameter(i).getValue() for i in range(kl.getNumLocalParameters())}
                     env = lambda nm: loc[nm] if nm in loc else (x[nm] if nm in x else p[nm])
                     rate = sbmlref.ast_eval(kl.getMath(), env)
+                    # the scale of a term is its magnitude without cancellation: the importer may re-arrange a law algebraically
+                    # (expand a product of a difference), which changes the rounding by eps times that magnitude
+                    rmag = max(abs(rate), sbmlref.ast_mag(kl.getMath(), env))
                     for sr in rx.getListOfProducts():
                         dx[sr.getSpecies()] += sr.getStoichiometry() * rate
-                        scale[sr.getSpecies()] += abs(sr.getStoichiometry() * rate)
+                        scale[sr.getSpecies()] += abs(sr.getStoichiometry() * rmag)
                     for sr in rx.getListOfReactants():
                         dx[sr.getSpecies()] -= sr.getStoichiometry() * rate
-                        scale[sr.getSpecies()] += abs(sr.getStoichiometry() * rate)
+                        scale[sr.getSpecies()] += abs(sr.getStoichiometry() * rmag)
                 for r in rm.getListOfRules():
                     if r.getElementName() == "rateRule":
                         env = lambda nm: x[nm] if nm in x else p[nm]
                         v = sbmlref.ast_eval(r.getMath(), env)
                         if r.getVariable() in dx:
                             dx[r.getVariable()] += v
-                            scale[r.getVariable()] += abs(v)
+                            scale[r.getVariable()] += max(abs(v), sbmlref.ast_mag(r.getMath(), env))
                         else:
                             dp[r.getVariable()] = v
+                            dpmag[r.getVariable()] = max(abs(v), sbmlref.ast_mag(r.getMath(), env))
             except ref.Undefined:
                 C["skipped_undefined"] += 1
                 continue
@@ -414,7 +419,7 @@ def run_case(doc):
                     break
             for pn, v in dp.items():
                 C["derivative_components_compared"] += 1
-                if pn not in idx or (math.isfinite(v) and not (abs(got[idx[pn]] - v) <= 1e-10 * max(abs(v), 1e-300) + 1e-14)):
+                if pn not in idx or (math.isfinite(v) and not (abs(got[idx[pn]] - v) <= 1e-10 * max(abs(v), dpmag.get(pn, 0.0), 1e-300) + 1e-14)):
                     viol.append({"key": "C13/derivative:rate-rule-on-parameter", "msg": "rate rule on parameter %s: document rate %r, imported %r" % (
                         pn, v, got[idx[pn]] if pn in idx else None)})
         nontrivial = coll or (n_as and n_rr) or any(n > 1 for r in doc["reactions"] for s, n in r["reactants"] + r["products"])
